@@ -57,7 +57,7 @@ func VerifH_addRule_mut() {
 }
 
 func vfFieldResolves(f string) bool {
-	return f == "f" || f == "g" || f == "h.k" || f == "h.c"
+	return f == "f" || f == "g" || f == "h.k" || f == "h.c" || f == "i"
 }
 
 // VerifH_addRule_sym (C16, C09): the real lexTemplate + addRule on a fully symbolic template,
